@@ -61,6 +61,8 @@ def parse_notation(string: str):
                 depth += 1
             elif token == ']':
                 depth -= 1
+                if depth < 0:
+                    raise ValueError('Notation error: parenthesis mismatch')
             else:
                 value = _parser_token_to_value(token)
                 _parser_push(value, groups, depth)
